@@ -312,6 +312,8 @@ def C02():
     ]
     jobs.append(MirJob("c02_mir_tpkt_certificate_policy", "tpkt::Client::start_ssl / start_nla: the bool given to Link::start_ssl is the check_certificate parameter itself on every path, whatever the mode flags are; cssp_connect gets the caller's restricted-admin flag",
                        mirjobs.tpkt_security_wiring))
+    jobs.append(MirJob("c02_mir_connector_certificate_policy", "Connector::connect: the certificate-check flag given to x224::Client::connect is the connector's own check_certificate setting, unmodified, on every path (whatever use_nla, restricted admin, blank credentials say)",
+                       mirjobs.connector_certificate_policy))
     return Prop("C02", [("core/tpkt.rs", "tpkt.rs"), ("core/x224.rs", "x224.rs")], jobs, lowerings=["L2"],
                 assumptions=[S6, DEV, "E3: results of calls are unconstrained symbols; the selected protocol is the enum discriminant read from read_connection_confirm's Ok value"],
                 text="The selection-vs-offer and TLS-first rules decided on the MIR of the real x224::Client::connect: for every selected protocol value and every offered mask (SMT), an Ok return implies selected in {SSL, Hybrid}, selected & offered != 0 and a completed start_ssl/start_nla; credential-bearing calls are behind TLS by fixedpoint reachability in start_nla and Connector::connect.",
